@@ -12,8 +12,6 @@
 package main
 
 import (
-	"fmt"
-
 	"github.com/smart-core-os/sc-golang/internal/verif/vk"
 )
 
@@ -28,7 +26,7 @@ func run(r *vk.Run) {
 		"first-get: a Get parked at router.get.afterMiss / beforeInsert (optionally a second Get parked inside the first one's window) x 8 interferers (none, get, add, add+remove, get+remove, remove, get+add, other name) on the plain router and generated routers; plus seeded-yield stress of 2-6 goroutines. "+
 		"default-name: unary and stream interceptor on every request type and every other linked-in message type with name absent / set / present-but-empty. "+
 		"regen: protoc-gen-router and protoc-gen-wrapper of the tree are built and run on a CodeGeneratorRequest made from the linked-in descriptors; output compared declaration by declaration (go/printer form incl. comments) with the checked-in files, imports as a set. "+
-		"A case is distinct by router.method, resolution mode, script class, name class and rendered request (forward), by its operation history (registry), by target x window pair (first-get), by file (regen).",
+		"A case is distinct by router.method, resolution mode, script class, name class, set of populated request fields, header/trailer presence and message count (forward), by its operation history (registry), by target x window pair (first-get), by file (regen).",
 		"requests are driven through the handler functions of the grpc.ServiceDesc the router registers (as grpc.Server and pkg/wrap do), not over a socket",
 		"clients are the generated sc-api clients over a recording grpc.ClientConnInterface; a client never returns both a response and an error",
 		"unary response headers/trailers are outside the statement (the router passes no call options) and are not judged; for streams whose client fails before or at Header(), and when the caller's stream fails, only status / delivered prefix are judged",
@@ -61,7 +59,7 @@ func run(r *vk.Run) {
 	}
 
 	// ---- forwarding ----
-	perMethod := r.Pick(300, 6000)
+	perMethod := r.Pick(300, 20000)
 	nMethods := 0
 	for _, e := range table {
 		for mi := range e.Methods {
@@ -95,7 +93,7 @@ func run(r *vk.Run) {
 	}
 
 	// ---- registry histories ----
-	nHist := r.Pick(4000, 200000)
+	nHist := r.Pick(4000, 400000)
 	steps := 40
 	raw := rawTarget()
 	for i := 0; i < nHist; i++ {
@@ -121,7 +119,7 @@ func run(r *vk.Run) {
 		}
 	}
 	forcedFirstGets(r, targets, &idx)
-	nStress := r.Pick(6000, 300000)
+	nStress := r.Pick(6000, 1000000)
 	for i := 0; i < nStress; i++ {
 		if !next() || !r.Selected("C12/first-get/stress") {
 			continue
@@ -138,13 +136,12 @@ func run(r *vk.Run) {
 	reqs, others := defaultNameTypes()
 	r.Count("default-name-request-types-x-shards", len(reqs))
 	per := r.Pick(20, 600)
-	for ti, mt := range reqs {
+	for _, mt := range reqs {
 		for c := 0; c < per; c++ {
 			if next() && r.Selected("C12/default-name/") {
 				defaultNameCase(r, mt, r.CaseRand("defname/"+string(mt.Descriptor().FullName()), c), true)
 			}
 		}
-		_ = ti
 	}
 	perOther := r.Pick(2, 20)
 	for _, mt := range others {
@@ -176,5 +173,4 @@ func run(r *vk.Run) {
 	r.Require("first-get-stress-scenarios", nStress)
 	r.Require("default-name-unary-string-name-empty", len(reqs))
 	r.Require("default-name-stream-string-name-set", len(reqs))
-	_ = fmt.Sprint
 }
